@@ -36,6 +36,9 @@ def _getformat(val):
     string
         the format string.
     """
+    if not np.isfinite(val):
+        # written as 'inf', '-inf' or 'nan'
+        return "%.16g"
     if int(val) == val:
         return "%.1f"
     else:
@@ -1091,7 +1094,7 @@ class FileParser(object):
         # special case for a float written like "3e5"
         mixed_exp = _ToFloat(Combine(Optional(sign) + digits + ee + Optional(sign) + digits))
 
-        nan = (_ToInf(oneOf("Inf -Inf")) |
+        nan = (_ToInf(oneOf("Inf -Inf inf -inf")) |
                _ToNan(oneOf("NaN nan NaN%  NaNQ NaNS qNaN sNaN 1.#SNAN 1.#QNAN -1.#IND")))
 
         string_text = Word(textchars)
